@@ -318,11 +318,12 @@ func specRawKids(n *Node, i int) string {
 //@   requires nn: ds != nil && current != nil
 //@   modifies out, wfail
 //@   decreases down(current)
-//@   ensures render [C01,C03]: !wfail ==> out[ds.w] == old(out[ds.w]) ++ specRaw(current)
+//@   ensures render [C01,C03]: result == nil ==> out[ds.w] == old(out[ds.w]) ++ specRaw(current)
+//@   ensures accepted [C14]: result == nil ==> wfail == old(wfail)
 //@   ensures frame: forall v any :: {out[v]} v != ds.w ==> out[v] == old(out[v])
 //@   ensures sticky [C14]: old(wfail) ==> wfail
 //@ loop gtree.defaultSpreaderSimple.spreadBranch#1
-//@   invariant sofar: !wfail ==> out[ds.w] == old(out[ds.w]) ++ specRawLine(current) ++ specRawKids(current, $i)
+//@   invariant sofar: out[ds.w] == old(out[ds.w]) ++ specRawLine(current) ++ specRawKids(current, $i) && wfail == old(wfail)
 //@   invariant frame: forall v any :: {out[v]} v != ds.w ==> out[v] == old(out[v])
 //@   invariant sticky: old(wfail) ==> wfail
 
@@ -376,13 +377,13 @@ func lemmaRawKidsIsRender(last, mid branchFormat, n *Node, i int) {
 //@   requires nn: ds != nil
 //@   requires roots: forall k int :: {roots[k]} 0 <= k && k < len(roots) ==> roots[k] != nil
 //@   modifies out, wfail, ds.w
-//@   ensures render [C01]: !wfail ==> out[w] == old(out[w]) ++ specRawAll(roots, len(roots))
+//@   ensures render [C01]: result == nil ==> out[w] == old(out[w]) ++ specRawAll(roots, len(roots))
+//@   ensures accepted [C14]: result == nil ==> wfail == old(wfail)
 //@   ensures frame: forall v any :: {out[v]} v != w ==> out[v] == old(out[v])
 //@   ensures sticky [C14]: old(wfail) ==> wfail
-//@   ensures nil [C01]: result == nil
 //@ loop gtree.defaultSpreaderSimple.spread#1
 //@   invariant w: ds.w == w
-//@   invariant sofar: !wfail ==> out[w] == old(out[w]) ++ specRawAll(roots, $i)
+//@   invariant sofar: out[w] == old(out[w]) ++ specRawAll(roots, $i) && wfail == old(wfail)
 //@   invariant frame: forall v any :: {out[v]} v != w ==> out[v] == old(out[v])
 //@   invariant sticky: old(wfail) ==> wfail
 
@@ -431,12 +432,14 @@ func lemmaRawKidsIsRender(last, mid branchFormat, n *Node, i int) {
 //@   requires attached: current.hierarchy == 1 || current.parent != nil
 //@   modifies Node.brnch.value, Node.brnch.path, out, wfail
 //@   decreases down(current)
-//@   ensures render [C03,C13]: result == nil && !wfail ==> out[dgs.w] == old(out[dgs.w]) ++ specRender(dgs.defaultGrowerSimple.lastNodeFormat, dgs.defaultGrowerSimple.intermedialNodeFormat, current)
+//@   ensures render [C03,C13]: result == nil ==> out[dgs.w] == old(out[dgs.w]) ++ specRender(dgs.defaultGrowerSimple.lastNodeFormat, dgs.defaultGrowerSimple.intermedialNodeFormat, current)
+//@   ensures accepted [C14]: result == nil ==> wfail == old(wfail)
 //@   ensures frame: forall v any :: {out[v]} v != dgs.w ==> out[v] == old(out[v])
 //@   ensures sticky [C14]: old(wfail) ==> wfail
-//@   ensures noval [C03]: !dgs.defaultGrowerSimple.enabledValidation ==> result == nil
+//@   ensures noval [C03]: !dgs.defaultGrowerSimple.enabledValidation && result != nil ==> wfail
 //@ loop gtree.defaultGrowSpreaderSimple.assembleAndPrint#1
-//@   invariant sofar: !wfail ==> out[dgs.w] == old(out[dgs.w]) ++ specLine(dgs.defaultGrowerSimple.lastNodeFormat, dgs.defaultGrowerSimple.intermedialNodeFormat, current) ++ specRenderKids(dgs.defaultGrowerSimple.lastNodeFormat, dgs.defaultGrowerSimple.intermedialNodeFormat, current, $i)
+//@   invariant quiet: wfail == old(wfail)
+//@   invariant sofar: out[dgs.w] == old(out[dgs.w]) ++ specLine(dgs.defaultGrowerSimple.lastNodeFormat, dgs.defaultGrowerSimple.intermedialNodeFormat, current) ++ specRenderKids(dgs.defaultGrowerSimple.lastNodeFormat, dgs.defaultGrowerSimple.intermedialNodeFormat, current, $i)
 //@   invariant frame: forall v any :: {out[v]} v != dgs.w ==> out[v] == old(out[v])
 //@   invariant sticky: old(wfail) ==> wfail
 
@@ -444,13 +447,15 @@ func lemmaRawKidsIsRender(last, mid branchFormat, n *Node, i int) {
 //@   requires nn: dgs != nil && dgs.defaultGrowerSimple != nil
 //@   requires roots: forall k int :: {roots[k]} 0 <= k && k < len(roots) ==> roots[k] != nil && roots[k].hierarchy == 1
 //@   modifies Node.brnch.value, Node.brnch.path, out, wfail, dgs.w
-//@   ensures render [C03,C13]: result == nil && !wfail ==> out[w] == old(out[w]) ++ specRenderAll(dgs.defaultGrowerSimple.lastNodeFormat, dgs.defaultGrowerSimple.intermedialNodeFormat, roots, len(roots))
+//@   ensures render [C03,C13]: result == nil ==> out[w] == old(out[w]) ++ specRenderAll(dgs.defaultGrowerSimple.lastNodeFormat, dgs.defaultGrowerSimple.intermedialNodeFormat, roots, len(roots))
+//@   ensures accepted [C14]: result == nil ==> wfail == old(wfail)
 //@   ensures frame: forall v any :: {out[v]} v != w ==> out[v] == old(out[v])
 //@   ensures sticky [C14]: old(wfail) ==> wfail
-//@   ensures noval [C03]: !dgs.defaultGrowerSimple.enabledValidation ==> result == nil
+//@   ensures noval [C03]: !dgs.defaultGrowerSimple.enabledValidation && result != nil ==> wfail
 //@ loop gtree.defaultGrowSpreaderSimple.growAndSpread#1
 //@   invariant w: dgs.w == w
-//@   invariant sofar: !wfail ==> out[w] == old(out[w]) ++ specRenderAll(dgs.defaultGrowerSimple.lastNodeFormat, dgs.defaultGrowerSimple.intermedialNodeFormat, roots, $i)
+//@   invariant quiet: wfail == old(wfail)
+//@   invariant sofar: out[w] == old(out[w]) ++ specRenderAll(dgs.defaultGrowerSimple.lastNodeFormat, dgs.defaultGrowerSimple.intermedialNodeFormat, roots, $i)
 //@   invariant frame: forall v any :: {out[v]} v != w ==> out[v] == old(out[v])
 //@   invariant sticky: old(wfail) ==> wfail
 
@@ -560,8 +565,9 @@ func specPreorderAll(roots []*Node, i int) []*Node {
 //@ func gtree.treeSimple.outputProgrammably
 //@   requires ok: simpleTreeOK(t, cfg) && root != nil && root.hierarchy == 1
 //@   modifies Node.brnch.value, Node.brnch.path, out, wfail, defaultGrowSpreaderSimple.w, defaultSpreaderSimple.w, counter.n
-//@   ensures render [C03,C13]: cfg.encode == encodeDefault && result == nil && !wfail ==> out[w] == old(out[w]) ++ specRender(cfg.lastNodeFormat, cfg.intermedialNodeFormat, root)
-//@   ensures text [C03]: cfg.encode == encodeDefault ==> result == nil
+//@   ensures render [C03,C13]: cfg.encode == encodeDefault && result == nil ==> out[w] == old(out[w]) ++ specRender(cfg.lastNodeFormat, cfg.intermedialNodeFormat, root)
+//@   ensures accepted [C14]: cfg.encode == encodeDefault && result == nil ==> wfail == old(wfail)
+//@   ensures text [C03]: cfg.encode == encodeDefault && result != nil ==> wfail
 //@   ensures frame: cfg.encode == encodeDefault ==> (forall v any :: {out[v]} v != w ==> out[v] == old(out[v]))
 //@   ensures sticky [C14]: old(wfail) ==> wfail
 
@@ -606,7 +612,7 @@ func specPreorderAll(roots []*Node, i int) []*Node {
 //@   modifies Node.brnch.value, Node.brnch.path, out, wfail, defaultGrowSpreaderSimple.w, defaultSpreaderSimple.w, counter.n
 //@   ensures nilnode [C03]: root == nil ==> result == ErrNilNode && out == old(out) && wfail == old(wfail)
 //@   ensures notroot [C03]: root != nil && root.hierarchy != 1 ==> result == ErrNotRoot && out == old(out) && wfail == old(wfail)
-//@   ensures render [C03,C13]: root != nil && root.hierarchy == 1 ==> (exists c *config :: {c.massive} fresh(c) && (!c.massive && c.encode == encodeDefault ==> result == nil && (!wfail ==> out[w] == old(out[w]) ++ specRender(c.lastNodeFormat, c.intermedialNodeFormat, root))))
+//@   ensures render [C03,C13,C14,C12]: root != nil && root.hierarchy == 1 ==> (exists c *config :: {c.massive} fresh(c) && (!c.massive && c.encode == encodeDefault ==> (result != nil ==> wfail) && (result == nil ==> wfail == old(wfail) && out[w] == old(out[w]) ++ specRender(c.lastNodeFormat, c.intermedialNodeFormat, root))))
 //@ applies fromRootOutput to gtree.OutputFromRoot, gtree.OutputProgrammably
 
 //@ contract fromRootWalk
@@ -667,12 +673,12 @@ func specPreorderAll(roots []*Node, i int) []*Node {
 // treeSimple.output has two routes: the plain one (noUseIterOfSimpleOutput) is verified here; the route through the
 // three iterator closures (iter.Pull2 coroutines) is not covered by this contract (marked partial; see DESIGN.md).
 //@ func gtree.treeSimple.output
-//@   partial
 //@   requires ok: simpleTreeOK(t, cfg)
 //@   modifies Node.children, Node.parent, Node.brnch.value, Node.brnch.path, list.List.view, list.Element.backOf, counter.n, bufio.Scanner.pos, bufio.Scanner.failed, markdown.Parser.isSharpRoot, markdown.Parser.spaces, markdown.Parser.sep, out, wfail, defaultSpreaderSimple.w
 //@   use lemma lemmaRawAllIsRenderAll
-//@   ensures render [C01]: cfg.noUseIterOfSimpleOutput && cfg.encode == encodeDefault && !cfg.dryrun && result == nil && !wfail ==> (exists rs []*Node :: {witness(roots)} allRoots(rs) && out[w] == old(out[w]) ++ specRenderAll(cfg.lastNodeFormat, cfg.intermedialNodeFormat, rs, len(rs)))
-//@   ensures sticky [C14]: old(wfail) ==> wfail
+//@   ensures accepted [C14]: cfg.encode == encodeDefault && !cfg.dryrun && result == nil ==> old(wfail) || !wfail
+//@   ensures render [C01]: cfg.noUseIterOfSimpleOutput && cfg.encode == encodeDefault && !cfg.dryrun && result == nil ==> (exists rs []*Node :: {witness(roots)} allRoots(rs) && out[w] == old(out[w]) ++ specRenderAll(cfg.lastNodeFormat, cfg.intermedialNodeFormat, rs, len(rs)))
+//@   ensures sticky [C14]: cfg.noUseIterOfSimpleOutput && old(wfail) ==> wfail
 
 //@ func gtree.treeSimple.walk
 //@   param callback follows walkCallback
@@ -707,7 +713,7 @@ func lemmaRawAllIsRenderAll(last, mid branchFormat, roots []*Node, i int) {
 
 //@ contract fromMarkdownOutput
 //@   modifies Node.children, Node.parent, Node.brnch.value, Node.brnch.path, list.List.view, list.Element.backOf, counter.n, bufio.Scanner.pos, bufio.Scanner.failed, markdown.Parser.isSharpRoot, markdown.Parser.spaces, markdown.Parser.sep, out, wfail, defaultSpreaderSimple.w
-//@   ensures render [C01,C03]: exists c *config :: {c.massive} fresh(c) && (!c.massive && c.noUseIterOfSimpleOutput && c.encode == encodeDefault && !c.dryrun && result == nil && !wfail ==> (exists rs []*Node :: allRoots(rs) && out[w] == old(out[w]) ++ specRenderAll(c.lastNodeFormat, c.intermedialNodeFormat, rs, len(rs))))
+//@   ensures render [C01,C03]: exists c *config :: {c.massive} fresh(c) && (!c.massive && c.encode == encodeDefault && !c.dryrun && result == nil ==> (old(wfail) || !wfail) && (c.noUseIterOfSimpleOutput ==> (exists rs []*Node :: allRoots(rs) && out[w] == old(out[w]) ++ specRenderAll(c.lastNodeFormat, c.intermedialNodeFormat, rs, len(rs)))))
 //@ applies fromMarkdownOutput to gtree.OutputFromMarkdown, gtree.Output
 
 //@ contract fromMarkdownWalk
@@ -724,6 +730,7 @@ func lemmaRawAllIsRenderAll(last, mid branchFormat, roots []*Node, i int) {
 // yielded and the one under construction is not modelled: functional facts do not survive a resume.
 
 //@ stream rootStream(n, e)
+//@   refines grownStream
 //@   requires nonnil [C12]: e == nil ==> n != nil && n.hierarchy == 1
 //@   modifies Node.brnch.value, Node.brnch.path, out, wfail, defaultSpreaderSimple.w, counter.n
 //@   resumes Node.children, Node.parent, list.List.view, list.Element.backOf, counter.n, bufio.Scanner.pos, bufio.Scanner.failed, markdown.Parser.isSharpRoot, markdown.Parser.spaces, markdown.Parser.sep
@@ -734,6 +741,8 @@ func lemmaRawAllIsRenderAll(last, mid branchFormat, roots []*Node, i int) {
 //@   resumes Node.children, Node.parent, list.List.view, list.Element.backOf, counter.n, bufio.Scanner.pos, bufio.Scanner.failed, markdown.Parser.isSharpRoot, markdown.Parser.spaces, markdown.Parser.sep, Node.brnch.value, Node.brnch.path
 
 //@ stream errStream(e)
+//@   requires err [C14]: e != nil
+//@   ensures accepted [C14]: old(wfail) || !wfail
 //@   modifies nothing
 //@   resumes Node.children, Node.parent, list.List.view, list.Element.backOf, counter.n, bufio.Scanner.pos, bufio.Scanner.failed, markdown.Parser.isSharpRoot, markdown.Parser.spaces, markdown.Parser.sep, Node.brnch.value, Node.brnch.path, out, wfail, defaultSpreaderSimple.w
 
@@ -751,3 +760,37 @@ func lemmaRawAllIsRenderAll(last, mid branchFormat, roots []*Node, i int) {
 //@   invariant open: stack != nil ==> chain(stack)
 //@   invariant closed: stack == nil ==> root == nil
 //@   decreases len(rg.scanner.lines) - rg.scanner.pos
+
+//@ func gtree.defaultGrowerSimple.growIter
+//@   requires nn: dg != nil
+//@   param rootIter follows rootStream
+//@   yields grownStream
+//@ closure gtree.defaultGrowerSimple.growIter#1
+//@   yields grownStream
+//@   requires nn: dg != nil
+//@   modifies Node.children, Node.parent, list.List.view, list.Element.backOf, counter.n, bufio.Scanner.pos, bufio.Scanner.failed, markdown.Parser.isSharpRoot, markdown.Parser.spaces, markdown.Parser.sep, Node.brnch.value, Node.brnch.path, out, wfail, defaultSpreaderSimple.w
+
+//@ func gtree.nopGrowerSimple.growIter
+//@   param rootIter follows rootStream
+//@   yields grownStream
+
+//@ func gtree.defaultSpreaderSimple.spreadIter
+//@   requires nn: ds != nil
+//@   param rootIter follows grownStream
+//@   yields errStream
+//@ closure gtree.defaultSpreaderSimple.spreadIter#1
+//@   yields errStream
+//@   requires nn: ds != nil
+//@   modifies Node.children, Node.parent, list.List.view, list.Element.backOf, counter.n, bufio.Scanner.pos, bufio.Scanner.failed, markdown.Parser.isSharpRoot, markdown.Parser.spaces, markdown.Parser.sep, Node.brnch.value, Node.brnch.path, out, wfail, defaultSpreaderSimple.w
+//@ loop gtree.defaultSpreaderSimple.spreadIter#1#1
+//@   invariant quiet [C14]: old(wfail) || !wfail
+
+// Placeholders until the C04 / C09 contracts cover them.
+//@ func gtree.formattedSpreaderSimple.spreadIter
+//@   assumed
+//@   param rootIter follows grownStream
+//@   yields errStream
+//@ func gtree.colorizeSpreaderSimple.spreadIter
+//@   assumed
+//@   param rootIter follows grownStream
+//@   yields errStream
